@@ -57,6 +57,12 @@ type bpWorld struct {
 	faultFired bool
 
 	knownTie bool // the recorded tip tie-break finding was hit in this run
+	// heapClean: no operation since the heap was last rebuilt (Init, or a reset
+	// whose fee move made reinit re-sort) can have left an account at a stale
+	// position on the unchanged tree. Those operations are: an insertion that keeps
+	// the account's fee-jump minima (no heap.Fix, the tip minimum may have moved:
+	// the recorded finding) and a capacity drop (heap.Fix only for better fee jumps).
+	heapClean bool
 
 	liveQ, liveL map[uint64]blobpool.VerifStoreEntry // what the two stores hold, from the store events
 
@@ -205,6 +211,7 @@ func (w *bpWorld) openPool() {
 	w.pool = pool
 	w.poolHead = head
 	w.initStoreRecord()
+	w.heapClean = true
 }
 
 type bpInitError struct{ err error }
@@ -382,6 +389,10 @@ func (w *bpWorld) makeTx(s *BPTx, model []acctModel, o *bpObs, nonceOverride *ui
 				return x.Uint64()
 			}
 			tip, feeCap, blobCap = thr(old.GasTipCap(), s.TipD), thr(old.GasFeeCap(), s.CapD), thr(old.BlobGasFeeCap(), s.BlobD)
+			if s.Boost > 0 {
+				m := uint64(1 + s.Boost)
+				tip, feeCap, blobCap = tip*m, feeCap*m, blobCap*m
+			}
 			w.res.Probe("replacement-attempted")
 		}
 	}
@@ -467,6 +478,7 @@ type bpInfo struct {
 	newHead   *simBlock
 	restarted bool
 	viol      *simcore.Violation
+	opViol    *simcore.Violation // found while the operation was applied, reported after it
 }
 
 func (w *bpWorld) run() *simcore.Violation {
@@ -557,8 +569,15 @@ func (w *bpWorld) apply(op *BPOp, B *bpObs) *bpInfo {
 		for j := range op.Txs {
 			info.txs = append(info.txs, w.makeTx(&op.Txs[j], B.head.model, B, nil))
 		}
-		if len(info.txs) > 0 {
-			info.errs = w.pool.Add(info.txs, true)
+		// one Add per transaction: the eviction heap is looked at after every
+		// single insertion (see checkHeapFixed)
+		for _, tx := range info.txs {
+			pre := w.pool.VerifSnapshot()
+			err := w.pool.Add([]*types.Transaction{tx}, true)[0]
+			info.errs = append(info.errs, err)
+			if err == nil && info.opViol == nil {
+				info.opViol = w.checkHeapFixed(pre, w.pool.VerifSnapshot(), tx, B.head)
+			}
 		}
 	case "tip":
 		w.pool.SetGasTip(new(big.Int).SetUint64(op.Tip))
@@ -686,7 +705,13 @@ func (w *bpWorld) applyHead(op *BPOp, B *bpObs, info *bpInfo) {
 		}
 	}
 	w.chain.setHead(cur)
-	w.pool.Reset(w.poolHead.block.Header(), cur.block.Header())
+	oh, nh := w.poolHead.block.Header(), cur.block.Header()
+	w.pool.Reset(oh, nh)
+	// a fee move of more than 0.01 jumps makes reinit rebuild the whole heap
+	if math.Abs(refJumps(eip1559.CalcBaseFee(w.chain.cfg, oh), false)-refJumps(eip1559.CalcBaseFee(w.chain.cfg, nh), false)) > 0.03 ||
+		math.Abs(refJumps(blobFeeAt(w.chain, oh).ToBig(), true)-refJumps(blobFeeAt(w.chain, nh).ToBig(), true)) > 0.03 {
+		w.heapClean = true
+	}
 	w.poolHead = cur
 	info.newHead = cur
 }
@@ -977,6 +1002,156 @@ func (w *bpWorld) checkLive(o *bpObs) *simcore.Violation {
 	return nil
 }
 
+// heapKey is an account's documented eviction key: priority bucket first, then
+// the minimum tip over its nonce sequence, both from the harness' fee data.
+type heapKey struct {
+	prio int
+	near bool
+	tip  *uint256.Int
+	exec float64 // minimum fee-cap jumps
+	blob float64 // minimum blob-fee-cap jumps
+}
+
+func (w *bpWorld) heapKeyOf(metas []blobpool.VerifMeta, baseJ, blobJ float64) heapKey {
+	var minTip *uint256.Int
+	minBase, minBlob := math.Inf(1), math.Inf(1)
+	for _, m := range metas {
+		tx := w.txs[m.Hash]
+		tip := uint256.MustFromBig(tx.GasTipCap())
+		if minTip == nil || tip.Lt(minTip) {
+			minTip = tip
+		}
+		minBase = math.Min(minBase, refJumps(tx.GasFeeCap(), false))
+		minBlob = math.Min(minBlob, refJumps(tx.BlobGasFeeCap(), true))
+	}
+	p, near := refPriority(baseJ, minBase, blobJ, minBlob)
+	return heapKey{p, near, minTip, minBase, minBlob}
+}
+
+func keyLess(a, b heapKey) bool {
+	if a.prio != b.prio {
+		return a.prio < b.prio
+	}
+	return a.tip.Lt(b.tip)
+}
+
+// checkHeapFixed looks at the eviction heap right after one accepted insertion.
+// The documented code re-establishes the position of the sender's account with
+// heap.Push (first transaction of the account), or heap.Fix when the account's
+// only transaction was replaced or when its minimum fee-cap / blob-fee-cap jumps
+// moved by more than 0.001 in EITHER direction. heap.Fix compares with the
+// current keys, so afterwards the account is not "less" than its parent and no
+// child is "less" than it, whatever else is stale in the heap. (An insertion that
+// leaves both minima where they were does not oblige a fix: that is the recorded
+// tip tie-break finding and is not judged here.)
+func (w *bpWorld) checkHeapFixed(pre, post *blobpool.VerifBPSnapshot, tx *types.Transaction, head *simBlock) *simcore.Violation {
+	from, _ := types.Sender(w.signer, tx)
+	idx := func(s *blobpool.VerifBPSnapshot) (map[common.Hash]bool, map[common.Address][]blobpool.VerifMeta) {
+		set, by := map[common.Hash]bool{}, map[common.Address][]blobpool.VerifMeta{}
+		for _, a := range s.Accounts {
+			by[a.Addr] = a.Txs
+			for _, m := range a.Txs {
+				set[m.Hash] = true
+			}
+		}
+		return set, by
+	}
+	preSet, preBy := idx(pre)
+	postSet, postBy := idx(post)
+	if !postSet[tx.Hash()] {
+		if len(postSet) != len(preSet) {
+			w.heapClean = false
+		}
+		return nil // gapped, or evicted straight away
+	}
+	// nothing but this insertion (and the transaction it replaced) may have changed
+	for h := range postSet {
+		if !preSet[h] && h != tx.Hash() {
+			w.heapClean = false
+			return nil // gapped transactions were promoted behind it
+		}
+	}
+	for _, a := range pre.Accounts {
+		for _, m := range a.Txs {
+			if !postSet[m.Hash] && !(a.Addr == from && m.Nonce == tx.Nonce()) {
+				w.heapClean = false
+				return nil // the capacity loop dropped something
+			}
+		}
+	}
+	hd := head.block.Header()
+	baseJ := refJumps(eip1559.CalcBaseFee(w.chain.cfg, hd), false)
+	blobJ := refJumps(blobFeeAt(w.chain, hd).ToBig(), true)
+	obliged := ""
+	switch {
+	case len(preBy[from]) == 0:
+		obliged = "first transaction of the account (heap.Push)"
+	case len(postBy[from]) == 1:
+		obliged = "the account's only transaction was replaced"
+	default:
+		o, n := w.heapKeyOf(preBy[from], baseJ, blobJ), w.heapKeyOf(postBy[from], baseJ, blobJ)
+		d := math.Max(math.Abs(o.exec-n.exec), math.Abs(o.blob-n.blob))
+		switch {
+		case d > 0.002:
+			if n.exec > o.exec+0.002 || n.blob > o.blob+0.002 {
+				w.res.Probe("heap-fix-obliged:minimum-raised")
+			}
+			obliged = fmt.Sprintf("the account's minimum fee jumps moved (exec %.3f -> %.3f, blob %.3f -> %.3f)", o.exec, n.exec, o.blob, n.blob)
+		case d > 0.0005:
+			w.heapClean = false
+			return nil // too close to the 0.001 threshold to call
+		}
+	}
+	if obliged == "" {
+		w.res.Probe("heap-fix-not-obliged")
+		w.heapClean = false
+		return nil
+	}
+	w.res.Probe("heap-fix-obliged")
+	pos := -1
+	for i, a := range post.HeapAddrs {
+		if a == from {
+			pos = i
+		}
+	}
+	if pos < 0 {
+		return simcore.Violf("evict-heap-set", "account %x has pooled transactions but is not in the eviction heap", from[:4])
+	}
+	// The edge to the parent is right after Push/Fix whatever else is stale. The
+	// edges to the children are examined by Fix at the account's old slot; if it
+	// then moved up they rest on the rest of the heap being in order, so inside one
+	// priority bucket they are judged only while nothing can be stale.
+	check := func(upper, lower int, full bool) *simcore.Violation {
+		ku, kl := w.heapKeyOf(postBy[post.HeapAddrs[upper]], baseJ, blobJ), w.heapKeyOf(postBy[post.HeapAddrs[lower]], baseJ, blobJ)
+		if ku.near || kl.near {
+			return nil
+		}
+		if !full && ku.prio == kl.prio {
+			return nil
+		}
+		if keyLess(kl, ku) {
+			v := simcore.Violf("evict-heap-order", "eviction heap after inserting %x (account %x nonce %d; %s): account %x (slot %d, priority %d, min tip %v) sits below %x (slot %d, priority %d, min tip %v) — the inserting account's position was not re-established",
+				tx.Hash().Bytes()[:4], from[:4], tx.Nonce(), obliged, post.HeapAddrs[lower][:4], lower, kl.prio, kl.tip, post.HeapAddrs[upper][:4], upper, ku.prio, ku.tip)
+			v.Key = "evict-heap-order:not-fixed-after-insertion"
+			return v
+		}
+		return nil
+	}
+	if pos > 0 {
+		if v := check((pos-1)/2, pos, true); v != nil {
+			return v
+		}
+	}
+	for _, c := range []int{2*pos + 1, 2*pos + 2} {
+		if c < len(post.HeapAddrs) {
+			if v := check(pos, c, w.heapClean); v != nil {
+				return v
+			}
+		}
+	}
+	return nil
+}
+
 func (w *bpWorld) checkHeap(o *bpObs) *simcore.Violation {
 	snap := o.snap
 	if len(snap.HeapAddrs) != len(snap.Accounts) || len(snap.HeapIndex) != len(snap.HeapAddrs) {
@@ -1033,6 +1208,10 @@ func (w *bpWorld) checkHeap(o *bpObs) *simcore.Violation {
 		if c.prio == p.prio && c.tip.Lt(p.tip) {
 			v := simcore.Violf("evict-heap-order", "eviction heap: account %x (slot %d, priority %d, min tip %v) sits below %x (slot %d, same priority, min tip %v)",
 				snap.HeapAddrs[i][:4], i, c.prio, c.tip, snap.HeapAddrs[par][:4], par, p.tip)
+			if w.heapClean {
+				v.Msg += " [no insertion or capacity drop since the heap was last rebuilt can explain a stale position]"
+				return v
+			}
 			v.Key = "evict-heap-order:tip-tiebreak"
 			v.Msg += " [accounts in one priority bucket are ordered by their minimum tip; appending a transaction with a lower tip but unchanged fee-cap minima does not re-sort the heap]"
 			if simcore.IsKnown(v.Key) {
@@ -1053,6 +1232,9 @@ func (w *bpWorld) checkHeap(o *bpObs) *simcore.Violation {
 // ---------------------------------------------------------------------------
 
 func (w *bpWorld) checkOp(op *BPOp, info *bpInfo, B, A *bpObs) *simcore.Violation {
+	if info.opViol != nil {
+		return info.opViol
+	}
 	switch op.Kind {
 	case "add":
 		for j, tx := range info.txs {
